@@ -11,22 +11,32 @@ generated concatenation-free case (correspondence `denote-fun-vs-loop`).  They h
 axis sizes and assignments (no bounds).  C01 ties einx to the denotation, so they transfer to einx; the
 harness (`tools/props/c08.py`) additionally issues the related real calls.
 
-* renaming            `pos_rename`, `denote_rename`, `denote_rename_elementwise`
+* tie to the loop form `denoteId_fun_agree`, `denoteId_fun_agree_multi` (any number of tensors),
+                      `denoteElementwise_fun_agree`
+* renaming            `pos_rename`, `denote_rename`, `denote_rename_elementwise`; injective on the names in use only:
+                      `denote_rename_on`, `denote_rename_elementwise_on`; for the loop form: `denoteId_rename`,
+                      `denoteElementwise_rename`
 * parentheses         `pos_flat_is_ravel`, `denote_regroup`, `denote_regroup_reshape`, `denote_regroup_tensor`
-* permuting an input  `denote_permute_input`      (with numpy's transpose plan `planInstr (.transpose x perm)`)
-* permuting an output `denote_permute_output`
+* permuting an input  `denote_permute_input` (per assignment), `denote_permute_input_tensor`, `denote_permute_input_expr`
+                      (whole tensors, with numpy's transpose plan `planInstr (.transpose x perm)`), `denoteId_permute_input`,
+                      `denote_permute_input_elementwise` (one input of an elementwise operation, whole tensors)
+* permuting an output `denote_permute_output` (per assignment), `denote_permute_output_tensor`,
+                      `denote_permute_output_expr` (whole tensors), `denoteId_permute_output`
+* reductions          `denote_reduce_rename` (loop form `Denote.denoteReduce`)
 * rearrangements      `position_valid_of_bounded`, `position_determines_leaves`, `id_inverse`, `id_compose`
 -/
 namespace Einx.C08
 open Einx Einx.IR Einx.Denote
+open Einx.Order.Fresh (InjOn)
 
 /-! ### The functional form is the loop form -/
 
 /-- **Tie to `Denote/Expr.lean`.**  For a concatenation-free input and output expression the loop form of the
 `id` denotation (`Denote.denoteId`, `for` loops in `Except`) and the functional form (`Denote.denoteIdFun`)
 succeed on the same operations and return the same symbolic tensors (`okOpt` forgets the text of the
-error message).  Multi-tensor and elementwise operations are tied by the driver-level differential test
-(kind `denote_fun`, correspondence `denote-fun-vs-loop`). -/
+error message).  Multi-tensor and elementwise operations: `denoteId_fun_agree_multi`,
+`denoteElementwise_fun_agree` below (and, on every run, the driver-level differential test, kind `denote_fun`,
+correspondence `denote-fun-vs-loop`). -/
 theorem denoteId_fun_agree (e1 e2 : Expr) (h1 : e1.concatFree = true) (h2 : e2.concatFree = true) :
     okOpt (denoteId [e1] [e2]) = okOpt (denoteIdFun [e1] [e2]) :=
   denoteId_eq_denoteIdFun e1 e2 h1 h2
@@ -323,5 +333,339 @@ example :
           && !Tensor.beq t12 (symInput 0 (shapeOf e2)) && !Tensor.beq t13 (symInput 0 (shapeOf e3))
       | _, _, _, _ => false) = true := by
   decide +kernel
+
+/-! ### Whole-tensor permutation laws -/
+
+/-- **Permuting an input expression together with its tensor: whole-tensor law.**  Let `v'` be the input view `v`
+with its root dimensions permuted by `perm`, and let `plan` be the IR's plan of numpy's `transpose(x, perm)` for a
+register of shape `viewShape v`.  For any output view `w` (leaf sizes consistent per name across `v` and `w`,
+decidable), the complete list of result cells of `id` through the permuted view, read from the transposed
+tensor (substitution of the plan's cells for register `0`), *equals* the complete list of result cells through the
+original view from the original register `x` -- including the case that the denotation is undefined. -/
+theorem denote_permute_input_tensor (v v' w : List Dim) (sw perm : List Nat) (shapes : List (List Nat)) (x : Nat)
+    (hperm : isPermOf perm v.length = true) (hv' : permuteL perm v = some v')
+    (hc : Dim.concatFreeL v = true) (hcons : consistentB (Dim.leavesL v ++ Dim.leavesL w) = true)
+    (hx : shapes[x]? = some (viewShape v)) :
+    ∃ plan, planInstr shapes (.transpose x perm) = .ok plan ∧ plan.shape = viewShape v' ∧
+      (idCells v' plan.shape 0 w sw).map (List.map (subst [⟨plan.shape, plan.cells⟩]))
+        = idCells v (viewShape v) x w sw := by
+  have hlen : (viewShape v).length = v.length := by simp [viewShape]
+  obtain ⟨plan, hplan, hshape, _, _⟩ :=
+    transpose_plan_ok shapes x (viewShape v) perm hx (by rw [hlen]; exact hperm)
+  have hs : plan.shape = viewShape v' := by
+    have := viewShape_permute hv'
+    rw [hshape] at this
+    exact Option.some.inj this
+  refine ⟨plan, hplan, hs, ?_⟩
+  have := idCells_permute_input (w := w) (sw := sw) hperm hv' hc (consistentB_spec hcons) hx hplan
+  rw [hs] at this ⊢
+  exact this
+
+/-- A concatenation-free single-input single-output `id` denotation, unfolded (as an equation in `Except`). -/
+theorem denoteIdFun_single_eq (e1 e2 : Expr) (h1 : e1.concatFree = true) (h2 : e2.concatFree = true) :
+    denoteIdFun [e1] [e2] = match idCells (rootDims e1) (shapeOf e1) 0 (rootDims e2) (shapeOf e2) with
+      | some cs => .ok [⟨shapeOf e2, cs⟩]
+      | none => .error "id: an axis is unassigned, or the output is not fully defined" := by
+  unfold denoteIdFun
+  simp only [Expr.concatFreeL, h1, h2, Bool.and_self, Bool.not_true, Bool.false_eq_true, if_false,
+    List.length_singleton, bne_self_eq_false, List.zipIdx_cons, List.zipIdx_nil, List.zip_cons_cons,
+    List.zip_nil_right, List.mapM_cons, List.mapM_nil, denoteIdFun1]
+  cases idCells (rootDims e1) (shapeOf e1) 0 (rootDims e2) (shapeOf e2) with
+  | none => rfl
+  | some cs => rfl
+
+/-- **The same on expressions (`denoteIdFun`).**  If the root dimensions of `e'` are those of `e` permuted by
+`perm`, then feeding the transposed input (`planInstr [shapeOf e] (.transpose 0 perm)`) into `e' -> eo` gives
+exactly the symbolic result of `e -> eo` (equality in `Except`, error text included). -/
+theorem denote_permute_input_expr (e e' eo : Expr) (perm : List Nat)
+    (he : e.concatFree = true) (he' : e'.concatFree = true) (heo : eo.concatFree = true)
+    (hperm : isPermOf perm (rootDims e).length = true) (hp : permuteL perm (rootDims e) = some (rootDims e'))
+    (hcons : consistentB (Dim.leavesL (rootDims e) ++ Dim.leavesL (rootDims eo)) = true) :
+    ∃ plan, planInstr [shapeOf e] (.transpose 0 perm) = .ok plan ∧ plan.shape = shapeOf e' ∧
+      (denoteIdFun [e'] [eo]).map (List.map (substT [⟨plan.shape, plan.cells⟩])) = denoteIdFun [e] [eo] := by
+  obtain ⟨plan, hplan, hs, hcells⟩ := denote_permute_input_tensor (rootDims e) (rootDims e') (rootDims eo)
+    (shapeOf eo) perm [shapeOf e] 0 hperm hp (rootDims_concatFree he) hcons rfl
+  refine ⟨plan, hplan, hs, ?_⟩
+  rw [denoteIdFun_single_eq e' eo he' heo, denoteIdFun_single_eq e eo he heo, shapeOf_eq e, ← hcells, hs, ← shapeOf_eq e']
+  cases idCells (rootDims e') (shapeOf e') 0 (rootDims eo) (shapeOf eo) with
+  | none => rfl
+  | some cs => rfl
+
+/-- **Permuting the output expression transposes the result: whole-tensor law.**  Let `w'` be the output view `w`
+permuted by `perm`.  If both operations are defined, the result of the permuted operation is the IR's transpose
+plan (`planInstr [viewShape w] (.transpose 0 perm)`) *run* on the original result: equality of tensors. -/
+theorem denote_permute_output_tensor (vi : List Dim) (si : List Nat) (i : Nat) (w w' : List Dim) (perm : List Nat)
+    (cs cs' : List Cell)
+    (hperm : isPermOf perm w.length = true) (hw' : permuteL perm w = some w')
+    (hc : Dim.concatFreeL w = true) (hcons : consistentB (Dim.leavesL w) = true)
+    (h : idCells vi si i w (viewShape w) = some cs) (h' : idCells vi si i w' (viewShape w') = some cs') :
+    ∃ plan, planInstr [viewShape w] (.transpose 0 perm) = .ok plan ∧
+      runPlan symAlg [⟨viewShape w, cs⟩] plan = ⟨viewShape w', cs'⟩ := by
+  have hlen : (viewShape w).length = w.length := by simp [viewShape]
+  obtain ⟨plan, hplan, _, _, _⟩ :=
+    transpose_plan_ok [viewShape w] 0 (viewShape w) perm rfl (by rw [hlen]; exact hperm)
+  obtain ⟨hs, hcells⟩ := idCells_permute_output [⟨viewShape w, cs⟩] hperm hw' hc (consistentB_spec hcons) rfl hplan rfl h h'
+  refine ⟨plan, hplan, ?_⟩
+  simp only [runPlan, hs, Tensor.mk.injEq, true_and, evalCells_eq_map]
+  exact hcells.symm
+
+/-- **The same on expressions.** -/
+theorem denote_permute_output_expr (e eo eo' : Expr) (perm : List Nat) (T T' : Tensor Cell)
+    (hperm : isPermOf perm (rootDims eo).length = true) (hp : permuteL perm (rootDims eo) = some (rootDims eo'))
+    (hcons : consistentB (Dim.leavesL (rootDims eo)) = true)
+    (h : denoteIdFun [e] [eo] = .ok [T]) (h' : denoteIdFun [e] [eo'] = .ok [T']) :
+    ∃ plan, planInstr [shapeOf eo] (.transpose 0 perm) = .ok plan ∧ runPlan symAlg [T] plan = T' := by
+  obtain ⟨_, hc, cs, hcs, ht⟩ := denoteIdFun_single h
+  obtain ⟨_, _, cs', hcs', ht'⟩ := denoteIdFun_single h'
+  simp only [List.cons.injEq, and_true] at ht ht'
+  subst ht ht'
+  exact denote_permute_output_tensor _ _ _ _ _ perm cs cs' hperm hp (rootDims_concatFree hc) hcons hcs hcs'
+
+
+/-- Non-vacuity of the whole-tensor permutation laws: `a (b c) d` with sizes 2, (2·1), 3 (equal lengths on
+different axes, a length-1 axis), `perm = [2, 0, 1]`, output `(d a) c b`.  All hypotheses hold; the result read
+through the permuted view differs from the original one cell-wise, and substituting the transposed tensor makes
+them equal (input law); the result towards the permuted output `b (d a) c` is the transpose plan run on the
+original result and differs from it (output law). -/
+example :
+    let a := Dim.axis ⟨"a", 2, false⟩; let b := Dim.axis ⟨"b", 2, false⟩
+    let c := Dim.axis ⟨"c", 1, false⟩; let d := Dim.axis ⟨"d", 3, false⟩
+    let v := [a, Dim.flat [b, c], d]; let v' := [d, a, Dim.flat [b, c]]
+    let w := [Dim.flat [d, a], c, b]; let w' := [b, Dim.flat [d, a], c]
+    isPermOf [2, 0, 1] v.length = true ∧ (permuteL [2, 0, 1] v).map viewShape = some (viewShape v') ∧
+    (permuteL [2, 0, 1] w).map viewShape = some (viewShape w') ∧
+    Dim.concatFreeL v = true ∧ Dim.concatFreeL w = true ∧
+    consistentB (Dim.leavesL v ++ Dim.leavesL w) = true ∧ consistentB (Dim.leavesL w) = true ∧
+    (match planInstr [viewShape v] (.transpose 0 [2, 0, 1]), planInstr [viewShape w] (.transpose 0 [2, 0, 1]) with
+      | .ok plan, .ok planw =>
+        (match idCells v' plan.shape 0 w (viewShape w), idCells v (viewShape v) 0 w (viewShape w),
+            idCells v (viewShape v) 0 w' (viewShape w') with
+          | some c', some c, some co =>
+            Cell.beqL (c'.map (subst [⟨plan.shape, plan.cells⟩])) c && !Cell.beqL c' c
+              && Tensor.beq (runPlan symAlg [⟨viewShape w, c⟩] planw) ⟨viewShape w', co⟩ && !Cell.beqL c co
+          | _, _, _ => false)
+      | _, _ => false) = true := by
+  decide +kernel
+
+/-- The hypotheses of `denote_permute_input_expr` / `denote_permute_output_expr` can be discharged on
+`a (b c) d -> (d a) c b` with the input permuted to `d a (b c)` and the output to `b (d a) c`. -/
+example :
+    let a := Expr.axis "a" 2; let b := Expr.axis "b" 2; let c := Expr.axis "c" 1; let d := Expr.axis "d" 3
+    let e := Expr.list [a, .flat (.list [b, c]), d]; let e' := Expr.list [d, a, .flat (.list [b, c])]
+    let eo := Expr.list [.flat (.list [d, a]), c, b]
+    ∃ plan, planInstr [shapeOf e] (.transpose 0 [2, 0, 1]) = .ok plan ∧ plan.shape = shapeOf e' ∧
+      (denoteIdFun [e'] [eo]).map (List.map (substT [⟨plan.shape, plan.cells⟩])) = denoteIdFun [e] [eo] :=
+  denote_permute_input_expr _ _ _ [2, 0, 1] (by decide +kernel) (by decide +kernel) (by decide +kernel)
+    (by decide +kernel) rfl (by decide +kernel)
+
+/-! ### Permuting one input of an elementwise operation -/
+
+/-- **Permuting one input expression of an elementwise operation together with its tensor: whole-tensor law.**
+`ins` are the input views with the shapes of their registers (register `k` holds input `k`); input `j` is the
+view `v`.  Replacing it by the permuted view `v'` and transposing register `j` with the IR's transpose plan
+(all other registers are the symbolic inputs) leaves the complete list of result cells `f(…)` unchanged,
+including undefinedness.  Hypotheses are decidable: every register has the shape of its concatenation-free view
+and leaf sizes are consistent per name between every input and the output. -/
+theorem denote_permute_input_elementwise (f : String) (ins : List (List Dim × List Nat)) (j : Nat)
+    (v v' w : List Dim) (perm sw : List Nat)
+    (hj : ins[j]? = some (v, viewShape v))
+    (hshape : ins.all (fun p => p.2 == viewShape p.1 && Dim.concatFreeL p.1) = true)
+    (hperm : isPermOf perm v.length = true) (hv' : permuteL perm v = some v')
+    (hcons : ins.all (fun p => consistentB (Dim.leavesL p.1 ++ Dim.leavesL w)) = true) :
+    ∃ plan, planInstr (ins.map (·.2)) (.transpose j perm) = .ok plan ∧ plan.shape = viewShape v' ∧
+      (ewCells f (ins.set j (v', viewShape v')) w sw).map (List.map (subst
+          ((ins.set j (v', viewShape v')).zipIdx.map (fun q =>
+            if q.2 = j then (⟨plan.shape, plan.cells⟩ : Tensor Cell) else symInput q.2 q.1.2))))
+        = ewCells f ins w sw := by
+  have hlen : (viewShape v).length = v.length := by simp [viewShape]
+  have hx : (ins.map (·.2))[j]? = some (viewShape v) := by simp [hj]
+  obtain ⟨plan, hplan, hshp, _, _⟩ :=
+    transpose_plan_ok (ins.map (·.2)) j (viewShape v) perm hx (by rw [hlen]; exact hperm)
+  have hs : plan.shape = viewShape v' := by
+    have := viewShape_permute hv'
+    rw [hshp] at this
+    exact Option.some.inj this
+  refine ⟨plan, hplan, hs, ?_⟩
+  simp only [List.all_eq_true, Bool.and_eq_true, beq_iff_eq] at hshape hcons
+  exact ewCells_permute_input hj hshape hperm hv' (fun p hp => consistentB_spec (hcons p hp)) hplan
+
+/-- Non-vacuity: `add: a (b c) d, d b -> (d a) c b` with a = b = 2, c = 1, d = 3; the first input permuted by
+`[2, 0, 1]` to `d a (b c)`.  The hypotheses hold, the permuted operation yields different cells, and substituting
+the transposed tensor gives the original cells. -/
+example :
+    let a := Dim.axis ⟨"a", 2, false⟩; let b := Dim.axis ⟨"b", 2, false⟩
+    let c := Dim.axis ⟨"c", 1, false⟩; let d := Dim.axis ⟨"d", 3, false⟩
+    let v := [a, Dim.flat [b, c], d]; let v' := [d, a, Dim.flat [b, c]]; let u := [d, b]
+    let w := [Dim.flat [d, a], c, b]
+    let ins := [(v, viewShape v), (u, viewShape u)]
+    let ins' := ins.set 0 (v', viewShape v')
+    ins.all (fun p => p.2 == viewShape p.1 && Dim.concatFreeL p.1) = true ∧
+    ins.all (fun p => consistentB (Dim.leavesL p.1 ++ Dim.leavesL w)) = true ∧
+    isPermOf [2, 0, 1] v.length = true ∧
+    (match planInstr (ins.map (·.2)) (.transpose 0 [2, 0, 1]) with
+      | .ok plan =>
+        (match ewCells "add" ins' w (viewShape w), ewCells "add" ins w (viewShape w) with
+          | some c', some c =>
+            Cell.beqL (c'.map (subst (ins'.zipIdx.map (fun q =>
+              if q.2 = 0 then (⟨plan.shape, plan.cells⟩ : Tensor Cell) else symInput q.2 q.1.2)))) c
+              && !Cell.beqL c' c && c.length == 12
+          | _, _ => false)
+      | _ => false) = true := by
+  decide +kernel
+
+/-! ### The functional form is the loop form: any number of tensors, and elementwise -/
+
+/-- **Tie to `Denote/Expr.lean`, several tensors.**  For concatenation-free input and output expressions (any
+number; the k-th output is the k-th input) the loop form `Denote.denoteId` and the functional form
+`Denote.denoteIdFun` succeed on the same operations and return the same symbolic tensors. -/
+theorem denoteId_fun_agree_multi (exprsIn exprsOut : List Expr)
+    (hin : Expr.concatFreeL exprsIn = true) (hout : Expr.concatFreeL exprsOut = true) :
+    okOpt (denoteId exprsIn exprsOut) = okOpt (denoteIdFun exprsIn exprsOut) :=
+  denoteId_eq_denoteIdFun_multi exprsIn exprsOut hin hout
+
+/-- **Tie to `Denote/Expr.lean`, elementwise.**  For concatenation-free expressions the loop form
+`Denote.denoteElementwise` (the one the C01 validator uses) and the functional form
+`Denote.denoteElementwiseFun` succeed on the same operations and return the same symbolic tensor. -/
+theorem denoteElementwise_fun_agree (f : String) (exprsIn : List Expr) (exprOut : Expr)
+    (hin : Expr.concatFreeL exprsIn = true) (hout : exprOut.concatFree = true) :
+    okOpt (denoteElementwise f exprsIn exprOut) = okOpt (denoteElementwiseFun f exprsIn exprOut) :=
+  denoteElementwise_eq_fun f exprsIn exprOut hin hout
+
+/-- Non-vacuity: `a (b c), d a -> (c a) b, a d` (two tensors) and `add: a b, b c -> c a b` with
+a = b = 2, c = 1, d = 3 are concatenation-free, and both forms are defined on them. -/
+example :
+    let a := Expr.axis "a" 2; let b := Expr.axis "b" 2; let c := Expr.axis "c" 1; let d := Expr.axis "d" 3
+    let ins := [Expr.list [a, .flat (.list [b, c])], Expr.list [d, a]]
+    let outs := [Expr.list [.flat (.list [c, a]), b], Expr.list [a, d]]
+    let ews := [Expr.list [a, b], Expr.list [b, c]]
+    let ewo := Expr.list [c, a, b]
+    Expr.concatFreeL ins = true ∧ Expr.concatFreeL outs = true ∧ Expr.concatFreeL ews = true ∧ ewo.concatFree = true ∧
+    (match okOpt (denoteId ins outs), okOpt (denoteIdFun ins outs) with
+      | some [t1, t2], some [u1, u2] => Tensor.beq t1 u1 && Tensor.beq t2 u2 && t1.shape == [2, 2] && t2.shape == [2, 3]
+      | _, _ => false) = true ∧
+    (match okOpt (denoteElementwise "add" ews ewo), okOpt (denoteElementwiseFun "add" ews ewo) with
+      | some t, some u => Tensor.beq t u && t.shape == [1, 2, 2]
+      | _, _ => false) = true := by
+  decide +kernel
+
+/-! ### Renaming that is injective on the names in use; transfer to the loop form -/
+
+/-- **Consistent renaming, weak hypothesis.**  It suffices that `ρ` is injective on the axis names that occur in
+the operation (`Expr.namesL`: all names, also inside concatenations and brackets). -/
+theorem denote_rename_on {ρ : String → String} (exprsIn exprsOut : List Expr)
+    (hρ : InjOn ρ (Expr.namesL exprsIn ++ Expr.namesL exprsOut)) :
+    denoteIdFun (Expr.renameL ρ exprsIn) (Expr.renameL ρ exprsOut) = denoteIdFun exprsIn exprsOut :=
+  denoteIdFun_rename_on exprsIn exprsOut hρ
+
+theorem denote_rename_elementwise_on {ρ : String → String} (f : String) (exprsIn : List Expr) (exprOut : Expr)
+    (hρ : InjOn ρ (Expr.namesL exprsIn ++ exprOut.names)) :
+    denoteElementwiseFun f (Expr.renameL ρ exprsIn) (exprOut.rename ρ) = denoteElementwiseFun f exprsIn exprOut :=
+  denoteElementwiseFun_rename_on f exprsIn exprOut hρ
+
+/-- **Renaming, for the executable loop form `Denote.denoteId`** (through the tie): on concatenation-free
+operations a renaming injective on the names in use leaves the result unchanged. -/
+theorem denoteId_rename {ρ : String → String} (exprsIn exprsOut : List Expr)
+    (hin : Expr.concatFreeL exprsIn = true) (hout : Expr.concatFreeL exprsOut = true)
+    (hρ : InjOn ρ (Expr.namesL exprsIn ++ Expr.namesL exprsOut)) :
+    okOpt (denoteId (Expr.renameL ρ exprsIn) (Expr.renameL ρ exprsOut)) = okOpt (denoteId exprsIn exprsOut) := by
+  rw [denoteId_fun_agree_multi _ _ (by rw [concatFreeL_rename]; exact hin) (by rw [concatFreeL_rename]; exact hout),
+    denoteId_fun_agree_multi _ _ hin hout, denote_rename_on _ _ hρ]
+
+/-- The same for `Denote.denoteElementwise`. -/
+theorem denoteElementwise_rename {ρ : String → String} (f : String) (exprsIn : List Expr) (exprOut : Expr)
+    (hin : Expr.concatFreeL exprsIn = true) (hout : exprOut.concatFree = true)
+    (hρ : InjOn ρ (Expr.namesL exprsIn ++ exprOut.names)) :
+    okOpt (denoteElementwise f (Expr.renameL ρ exprsIn) (exprOut.rename ρ)) = okOpt (denoteElementwise f exprsIn exprOut) := by
+  rw [denoteElementwise_fun_agree _ _ _ (by rw [concatFreeL_rename]; exact hin) (by rw [concatFree_rename]; exact hout),
+    denoteElementwise_fun_agree _ _ _ hin hout, denote_rename_elementwise_on _ _ _ hρ]
+
+/-- A renaming that is *not* injective (every unknown name goes to `"w"`), but injective on `a b c d`. -/
+def collapseNames (n : String) : String :=
+  if n = "a" then "b" else if n = "b" then "a" else if n = "c" then "x" else if n = "d" then "c" else "w"
+
+/-- Non-vacuity: `collapseNames` is not injective, is injective on the names of `a (b c), d a -> (c a) b, a d`
+(sizes 2, 2, 1, 3), changes the expressions, and the theorem applies to the loop form. -/
+example :
+    let a := Expr.axis "a" 2; let b := Expr.axis "b" 2; let c := Expr.axis "c" 1; let d := Expr.axis "d" 3
+    let ins := [Expr.list [a, .flat (.list [b, c])], Expr.list [d, a]]
+    let outs := [Expr.list [.flat (.list [c, a]), b], Expr.list [a, d]]
+    collapseNames "p" = collapseNames "q" ∧
+    okOpt (denoteId (Expr.renameL collapseNames ins) (Expr.renameL collapseNames outs)) = okOpt (denoteId ins outs) :=
+  ⟨by decide, denoteId_rename _ _ (by decide +kernel) (by decide +kernel) (by unfold InjOn; decide +kernel)⟩
+
+example :
+    let a := Expr.axis "a" 2; let b := Expr.axis "b" 2; let c := Expr.axis "c" 1; let d := Expr.axis "d" 3
+    let ins := [Expr.list [a, .flat (.list [b, c])], Expr.list [d, a]]
+    let outs := [Expr.list [.flat (.list [c, a]), b], Expr.list [a, d]]
+    (match okOpt (denoteId (Expr.renameL collapseNames ins) (Expr.renameL collapseNames outs)) with
+      | some [t1, t2] => t1.shape == [2, 2] && t2.shape == [2, 3] && Cell.beqL (t2.data.take 3) [.src 1 0, .src 1 2, .src 1 4]
+      | _ => false) = true := by decide +kernel
+
+/-! ### Transfer of the permutation laws to the loop form -/
+
+theorem okOpt_map {α β : Type} (g : α → β) (x : Denote.E α) : okOpt (x.map g) = (okOpt x).map g := by
+  cases x <;> rfl
+
+theorem ok_of_okOpt {α : Type} {x : Denote.E α} {a : α} (h : okOpt x = some a) : x = .ok a := by
+  cases x with
+  | error e => simp [okOpt] at h
+  | ok b => simp only [okOpt, Option.some.injEq] at h; rw [h]
+
+/-- **Input permutation law for the executable loop form `Denote.denoteId`.** -/
+theorem denoteId_permute_input (e e' eo : Expr) (perm : List Nat)
+    (he : e.concatFree = true) (he' : e'.concatFree = true) (heo : eo.concatFree = true)
+    (hperm : isPermOf perm (rootDims e).length = true) (hp : permuteL perm (rootDims e) = some (rootDims e'))
+    (hcons : consistentB (Dim.leavesL (rootDims e) ++ Dim.leavesL (rootDims eo)) = true) :
+    ∃ plan, planInstr [shapeOf e] (.transpose 0 perm) = .ok plan ∧ plan.shape = shapeOf e' ∧
+      (okOpt (denoteId [e'] [eo])).map (List.map (substT [⟨plan.shape, plan.cells⟩])) = okOpt (denoteId [e] [eo]) := by
+  obtain ⟨plan, hplan, hs, h⟩ := denote_permute_input_expr e e' eo perm he he' heo hperm hp hcons
+  refine ⟨plan, hplan, hs, ?_⟩
+  rw [denoteId_fun_agree e' eo he' heo, denoteId_fun_agree e eo he heo, ← h, okOpt_map]
+
+/-- **Output permutation law for the executable loop form `Denote.denoteId`.** -/
+theorem denoteId_permute_output (e eo eo' : Expr) (perm : List Nat) (T T' : Tensor Cell)
+    (he : e.concatFree = true) (heo : eo.concatFree = true) (heo' : eo'.concatFree = true)
+    (hperm : isPermOf perm (rootDims eo).length = true) (hp : permuteL perm (rootDims eo) = some (rootDims eo'))
+    (hcons : consistentB (Dim.leavesL (rootDims eo)) = true)
+    (h : okOpt (denoteId [e] [eo]) = some [T]) (h' : okOpt (denoteId [e] [eo']) = some [T']) :
+    ∃ plan, planInstr [shapeOf eo] (.transpose 0 perm) = .ok plan ∧ runPlan symAlg [T] plan = T' := by
+  rw [denoteId_fun_agree e eo he heo] at h
+  rw [denoteId_fun_agree e eo' he heo'] at h'
+  exact denote_permute_output_expr e eo eo' perm T T' hperm hp hcons (ok_of_okOpt h) (ok_of_okOpt h')
+
+/-! ### Reductions (executable loop form `Denote.denoteReduce`) -/
+
+/-- **Reductions are invariant under consistent renaming.**  For concatenation-free expressions and a renaming
+that is injective on the axis names in use, `Denote.denoteReduce` (the loop form the C01 validator uses; bracketed
+axes are the marked leaves) returns the same symbolic tensor -- the same canonical reduction cell at every output
+position -- and fails with the same message. -/
+theorem denote_reduce_rename {ρ : String → String} (f : String) (e eo : Expr)
+    (he : e.concatFree = true) (heo : eo.concatFree = true) (hρ : InjOn ρ (e.names ++ eo.names)) :
+    denoteReduce f (e.rename ρ) (eo.rename ρ) = denoteReduce f e eo :=
+  denoteReduce_rename_on f e eo he heo hρ
+
+/- Not proved (`denote_reduce_bracket_order`): permuting the bracketed axes among themselves leaves
+`denoteReduce` unchanged.  The reduced cells are visited in a different order; `mkRed` sorts them with
+`sortCells` (insertion sort by `Cell.cmp`), so the statement needs (a) `Cell.cmp` is a total order with
+`cmp a b = .eq → a = b` (mutual induction over cells), hence `sortCells` depends only on the multiset, and
+(b) the two enumerations `assignments marked` / `assignments marked'` yield permutations of the same cell list.
+The driver-level relation R2/R3 on reductions (tools/props/c08.py) samples it. -/
+
+/-- Non-vacuity: `sum: a [b c] d -> d a` with a = b = 2, c = 1, d = 3 under the non-injective `collapseNames`
+(injective on `a b c d`): the theorem applies, the renamed expressions differ, and the result holds genuine
+two-element reductions. -/
+example :
+    let a := Expr.axis "a" 2; let b := Expr.axis "b" 2; let c := Expr.axis "c" 1; let d := Expr.axis "d" 3
+    let e := Expr.list [a, .br (.list [b, c]), d]; let eo := Expr.list [d, a]
+    denoteReduce "sum" (e.rename collapseNames) (eo.rename collapseNames) = denoteReduce "sum" e eo :=
+  denote_reduce_rename "sum" _ _ (by decide +kernel) (by decide +kernel) (by unfold InjOn; decide +kernel)
+
+example :
+    let a := Expr.axis "a" 2; let b := Expr.axis "b" 2; let c := Expr.axis "c" 1; let d := Expr.axis "d" 3
+    let e := Expr.list [a, .br (.list [b, c]), d]; let eo := Expr.list [d, a]
+    (match denoteReduce "sum" (e.rename collapseNames) (eo.rename collapseNames) with
+      | .ok t => t.shape == [3, 2] && Cell.beqL (t.data.take 2)
+          [.app "red:sum" [.src 0 0, .src 0 3], .app "red:sum" [.src 0 6, .src 0 9]]
+      | _ => false) = true := by decide +kernel
 
 end Einx.C08
